@@ -16,6 +16,7 @@ structure VisInv (v : Visitor) (P : St → Prop) : Prop where
   visit : ∀ st n rel, PlainPath rel → rel ≠ [] → P st → P (v.visitNode st n rel).1
   leave : ∀ f, v.leaveDir = some f → ∀ st n rel exp, PlainPath rel → (n.isSome = true → rel ≠ []) →
     P st → P (f st n rel exp).1
+  skipped : ∀ g, v.skippedDir = some g → ∀ st rel exp, PlainPath rel → P st → P (g st rel exp).1
 
 theorem VisInv.sanitize {v : Visitor} {P : St → Prop} (h : VisInv v P) (r : St × Bool) (hr : P r.1) :
     P (sanitize r) := by
@@ -133,13 +134,22 @@ theorem traverse_inv (cfg : Cfg) (v : Visitor) (P : St → Prop) (hv : VisInv v 
       have := ih2 hnr hP1
       rw [hdirres] at this
       exact this
+    have hskip : P (if (!sel && !childHr && cm) = true then
+        (match v.skippedDir with
+         | some g => sanitize (g st2 (joinName rel n.name) childFn)
+         | none => st2) else st2) := by
+      split
+      · cases hsd : v.skippedDir with
+        | none => exact hP2
+        | some g => exact hv.sanitize _ (hv.skipped g hsd st2 _ childFn hnr hP2)
+      · exact hP2
     have hP3 : P st3 := by
       simp only [st3]
       cases (sel || childHr) with
-      | false => exact hP2
+      | false => exact hskip
       | true =>
         cases hed : v.leaveDir with
-        | none => exact hP2
+        | none => exact hskip
         | some f => exact hv.sanitize _ (hv.leave f hed st2 (some n) _ childFn hnr (fun _ => hne) hP2)
     have hfin := ih1 hrel hP3
     have h1' : (!nameCheck1 n.name) = false := by simpa using h1
@@ -212,7 +222,11 @@ theorem traverseTree_inv (cfg : Cfg) (v : Visitor) (P : St → Prop) (hv : VisIn
     | false =>
       simp only [Bool.false_eq_true, if_false]
       cases hr with
-      | false => exact hP1
+      | false =>
+        simp only [Bool.not_false, if_true]
+        cases hsd : v.skippedDir with
+        | none => exact hP1
+        | some g => exact hv.sanitize _ (hv.skipped g hsd st1 [] fn hnil hP1)
       | true =>
         cases hed : v.leaveDir with
         | none => exact hP1
